@@ -20,7 +20,7 @@ from ..render import LAYOUTS, TRAITS, applicable, render
 from ..tlaval import dump_chunks, parse_state
 
 PROP = "C01"
-ALLV = '{"plain", "prefix", "multi", "nextbrace", "bracegroup", "arrow", "throws", "lineabove"}'
+ALLV = '{"plain", "prefix", "multi", "nextbrace", "bracegroup", "arrow", "throws", "lineabove", "tailwrap"}'
 ALLS = '{"plain", "strdelim", "trailing", "inline"}'
 ALLC = '{"if", "loop", "try"}'
 ALLK = '{"F","K","C","E","A","X","S","M","B","R"}'
